@@ -730,6 +730,11 @@ func c16Stores(r *Run) error {
 			typ = "eventlog"
 		}
 		opts := &ScenOpts{}
+		if n == 1 && r.Rng.Intn(2) == 0 {
+			off := false
+			opts.Replicate = &off // a purely local store: same events
+			r.Count("stores:replicate=false")
+		}
 		restricted := n == 2 && r.Rng.Intn(3) == 0
 		if restricted {
 			opts.Writers = []int{0} // replica 1 is not in the write list: its writes fail
@@ -1063,7 +1068,15 @@ func c16FreeWriters(r *Run) error {
 	ctx := context.Background()
 	for ri := 0; ri < runs; ri++ {
 		typ := []string{"keyvalue", "eventlog"}[ri%2]
-		s, err := NewScen(1, typ, nil)
+		// every other run on a store opened with Replicate = false (no topic, no announcer):
+		// write events are part of the store's API all the same
+		var sopts *ScenOpts
+		if ri%4 >= 2 {
+			off := false
+			sopts = &ScenOpts{Replicate: &off}
+			r.Count("free-writers:replicate=false")
+		}
+		s, err := NewScen(1, typ, sopts)
 		if err != nil {
 			return err
 		}
